@@ -19,11 +19,14 @@ from harness import core
 ID = 'C14'
 TITLE = 'Sorted searches and PREVIOUS/NEXT/RANK agree with a linear scan'
 PROPS = ['Props/C14']
-RULE = ('documents with one table T (0-8 rows, thorough up to 12; explicit row ids), 1-2 sort columns drawn from pools with '
+RULE = ('documents with one table T (0-8 rows, thorough up to 12; explicit row ids), 1-2 sort columns (type Any, or typed '
+        'Date/Numeric/Text/Int) drawn from pools with '
         'duplicates and mixed types (None, bool, int, float, str, date, datetime, lists/tuples), 0-2 group-by columns '
         '(1, 1.0 and True are one key), per-row probe values (present, absent, other types; 0-3 of them), order_by '
         'variants (asc/desc, two columns, "id" cut, manualSort explicit/implicit/absent via sort_by, None), optional '
-        'edit history (cell updates, adds, removes, repositioning) before or after the formula columns exist; thorough '
+        'edit history (cell updates, exchanges of sort values, adds, removes, repositioning) before or after the formula '
+        'columns exist; separate streams: order_by starting with "id" (known finding), unknown sort columns (both sides '
+        'must report an error), values SortKey cannot order such as NaN (only "no internal error"); thorough '
         'adds all tables of <= 4 rows with keys in {0,1,2} x all probes in {-1..3, None}; every formula cell '
         '(row x {lt,le,gt,ge,eq,PREVIOUS,NEXT,RANK asc,RANK desc}) is one evaluation; it is non-trivial when the '
         'looked-up record set has >= 2 records')
@@ -37,7 +40,6 @@ ASSUMPTIONS = ['sort values and probe values are mutually comparable column by c
                'generated in-domain case',
                'row ids of the table are distinct and every record has one value per sort column (hypotheses of the theorems)',
                'the sort spec is not empty and at least one probe value is given (otherwise the code raises; modelled as errors)']
-DISABLED = True
 
 OPS = ['lt', 'le', 'gt', 'ge', 'eq', 'prev', 'next', 'rank', 'rankd']
 FIND_OPS = OPS[:5]
@@ -151,7 +153,13 @@ POOLS = {
   'strlist': [['L'], ['L', 'a'], ['L', 'a', 'b'], ['L', 'b'], ['L', 'ab'], ['L', 'a', 'a'], None, 'a'],
   'nested': [['L'], ['L', ['L']], ['L', ['L', 1]], ['L', ['L', 1], ['L', 2]], ['L', ['L', 1, 2]], ['L', ['L', 2]], None],
   'mixed': ATOMS + [['L'], ['L', 1], ['L', 1, 2], ['L', 2]],
+  # typed columns (values are the raw cells; a Date column shows them to formulas as datetime.date)
+  'typed_date': [0, 86400, 172800, 432000, None],
+  'typed_numeric': [0.0, 1.0, 0.5, 2.5, -1.5, 1e300, None],
+  'typed_text': ['', 'a', 'b', 'B', 'ab', u'é', None],
+  'typed_int': [0, 1, 2, 3, -1, None],
 }
+TYPED = {'typed_date': 'Date', 'typed_numeric': 'Numeric', 'typed_text': 'Text', 'typed_int': 'Int'}
 # outside the property's domain: values SortKey cannot order consistently
 ROBUST_POOL = [float('nan'), ['L', 1], ['L', 'x'], ['L', None], ['L', 1, 'y'], ['L', 1, 2], 1, None, 'a', float('inf')]
 GROUP_POOL = [1, 2, 'x', None, 1.0, True, 'y', 2.0]
@@ -179,18 +187,24 @@ def effective_spec(order_by, sort_by, has_manual=True):
   return [(c[1:], False) if c.startswith('-') else (c, True) for c in cols]
 
 
-def gen_doc(rng, tier, robust=False, empty_spec=False):
+MALFORMED_CHOICES = [('Nope', None), (['S1', 'Nope'], None), ('Nope', 'Nope'), ('-', None), ('-Nope', None)]
+
+
+def gen_doc(rng, tier, robust=False, empty_spec=False, malformed=False):
   n = rng.choice([0, 1, 2, 3, 4, 5, 6, 8] if tier == 'quick' else [0, 1, 2, 3, 4, 5, 6, 8, 10, 12])
+  if malformed:
+    n = max(n, 1)      # the model learns which columns exist from the rows
   if robust:
     flav = ['robust', 'robust']
     pools = [ROBUST_POOL, ROBUST_POOL]
   else:
-    flav = [rng.choice(['smallint', 'smallint', 'numeric', 'str', 'date', 'intlist', 'strlist', 'nested', 'mixed', 'mixed']),
+    flav = [rng.choice(['smallint', 'smallint', 'numeric', 'str', 'date', 'intlist', 'strlist', 'nested', 'mixed', 'mixed',
+                        'typed_date', 'typed_numeric', 'typed_text', 'typed_int']),
             rng.choice(['smallint', 'numeric', 'str', 'mixed'])]
     pools = [POOLS[f] for f in flav]
     # keep pools small so that duplicates are frequent
     pools = [rng.sample(p, min(len(p), rng.choice([2, 3, 4, 6]))) if rng.random() < 0.7 else p for p in pools]
-  order_by, sort_by = rng.choice(EMPTY_SPEC_CHOICES if empty_spec else ORDER_CHOICES)
+  order_by, sort_by = rng.choice(MALFORMED_CHOICES if malformed else EMPTY_SPEC_CHOICES if empty_spec else ORDER_CHOICES)
   tuple_cols = [c for c in ('S1',) if flav[0] in ('intlist', 'strlist', 'nested', 'mixed') and rng.random() < 0.3]
   group_by = rng.choice([[], [], ['G1'], ['G1'], ['G1', 'G2']])
   gpool = rng.sample(GROUP_POOL, rng.choice([2, 3, 4]))
@@ -213,6 +227,9 @@ def gen_doc(rng, tier, robust=False, empty_spec=False):
     col = spec[k][0] if k < len(spec) else None
     p = pool_of(col)
     r = rng.random()
+    if col == 'S1' and flav[0] == 'typed_date' and r < 0.75:
+      v = rng.choice(p + [259200])
+      return None if v is None else ['d', v]
     if robust or r < 0.75:
       return rng.choice(p)
     if flav[0] in ('intlist', 'strlist', 'nested') and col == 'S1' and r < 0.9:
@@ -236,10 +253,21 @@ def gen_doc(rng, tier, robust=False, empty_spec=False):
   edits = []
   live = list(ids)
   nextid = (max(ids) if ids else 0) + 1
-  if rng.random() < 0.5:
+  if rng.random() < 0.6 and not malformed:
     for _ in range(rng.choice([1, 2, 3, 5])):
       r = rng.random()
-      if r < 0.5 and live:
+      if r < 0.35 and len(live) >= 2:
+        # exchange the sort values of two records: the cached sorted version of their group must be dropped
+        a, b = rng.sample(live, 2)
+        col = rng.choice(['S1', 'S1', 'S2'])
+        cur = {}
+        for act in [load] + edits:
+          if act[0] == 'BulkAddRecord':
+            cur.update(dict(zip(act[2], act[3][col])))
+          elif act[0] in ('AddRecord', 'UpdateRecord') and col in act[3]:
+            cur[act[2]] = act[3][col]
+        edits.append(['BulkUpdateRecord', 'T', [a, b], {col: [cur[b], cur[a]]}])
+      elif r < 0.55 and live:
         col = rng.choice(['S1', 'S1', 'S2', 'G1', 'P1', 'Q1'])
         edits.append(['UpdateRecord', 'T', rng.choice(live), {col: new_row()[col]}])
       elif r < 0.7:
@@ -252,9 +280,10 @@ def gen_doc(rng, tier, robust=False, empty_spec=False):
         edits.append(['RemoveRecord', 'T', rid])
       elif live:
         edits.append(['UpdateRecord', 'T', rng.choice(live), {'manualSort': rng.choice([0.25, 1.5, 2.5, 7.75, 50.0])}])
-  return {'flavors': flav, 'order_by': order_by, 'sort_by': sort_by, 'group_by': group_by, 'tuple_cols': tuple_cols,
+  return {'col_types': {'S1': TYPED[flav[0]]} if flav[0] in TYPED else {},
+          'flavors': flav, 'order_by': order_by, 'sort_by': sort_by, 'group_by': group_by, 'tuple_cols': tuple_cols,
           'nprobe': nprobe, 'load': load, 'edits': edits, 'formulas_first': rng.random() < 0.6,
-          'robust': bool(robust), 'group_by_str': rng.random() < 0.5}
+          'robust': bool(robust), 'group_by_str': rng.random() < 0.5, 'malformed': bool(malformed)}
 
 
 def exhaustive_docs():
@@ -343,7 +372,8 @@ def build(doc):
   e = engine_mod.Engine()
   e.load_empty()
   e.apply_user_actions([ua(['InitNewDoc'])])
-  cols = [{'id': c, 'type': 'Any', 'isFormula': False} for c in ('S1', 'S2', 'G1', 'G2', 'Q1', 'Q2', 'P1', 'P2', 'P3')]
+  cols = [{'id': c, 'type': doc.get('col_types', {}).get(c, 'Any'), 'isFormula': False}
+          for c in ('S1', 'S2', 'G1', 'G2', 'Q1', 'Q2', 'P1', 'P2', 'P3')]
   for c in doc['tuple_cols']:
     cols.append({'id': c + 't', 'type': 'Any', 'isFormula': True,
                  'formula': 'tuple($%s) if isinstance($%s, list) else $%s' % (c, c, c)})
@@ -376,6 +406,8 @@ def rich_rows(doc, obs):
     r = {'id': rid}
     for c in ('S1', 'S2', 'G1', 'G2', 'Q1', 'Q2', 'manualSort'):
       r[c] = dec(obs['cols'][c][i])
+      if doc.get('col_types', {}).get(c) == 'Date' and isinstance(r[c], (int, float)) and not isinstance(r[c], bool):
+        r[c] = EPOCH + datetime.timedelta(days=int(r[c]) // 86400)     # what a Date column shows to formulas
     for c in doc['tuple_cols']:
       r[c + 't'] = dec(obs['cols'][c][i], tup=True)
     r['probe'] = []
@@ -556,12 +588,14 @@ def _key_eq(a, b):
 
 def docs(ctx):
   out = []
-  for _ in range(ctx.n(70, 1400)):
+  for _ in range(ctx.n(110, 1400)):
     out.append(gen_doc(ctx.rng, ctx.tier))
   for _ in range(ctx.n(6, 40)):
     out.append(gen_doc(ctx.rng, ctx.tier, empty_spec=True))
   for _ in range(ctx.n(8, 80)):
     out.append(gen_doc(ctx.rng, ctx.tier, robust=True))
+  for _ in range(ctx.n(4, 30)):
+    out.append(gen_doc(ctx.rng, ctx.tier, malformed=True))     # unknown sort column: both sides must report an error
   if ctx.tier == 'thorough':
     out.extend(exhaustive_docs())
     ctx.extra['exhaustive'] = True
@@ -596,14 +630,18 @@ def correspond(ctx):
     except Unrepresentable as e:
       ctx.bump('unrepresentable')
       continue
-    ok_dom = in_domain(doc, rows)
-    if not ok_dom:
-      ctx.bump('out_of_domain_document')
-      continue
-    doms = coq_domains(doc, obs, rows)
-    cases.append('(%s, true, %s, %s)' % (tbl_txt, core.coq_list(qs) if qs else '(@nil (query * res))', core.coq_list(doms)))
+    if doc.get('malformed'):
+      ctx.bump('malformed_documents')
+      doms = []
+    else:
+      if not in_domain(doc, rows):
+        ctx.bump('out_of_domain_document')
+        continue
+      doms = coq_domains(doc, obs, rows)
+    cases.append('(%s, true, %s, %s)' % (tbl_txt, core.coq_list(qs) if qs else '(@nil (query * res))',
+                                        core.coq_list(doms) if doms else '(@nil (list (list Z) * list Z * list (list val)))'))
     meta.append((doc, obs, rows, qs, keys, tbl_txt, doms))
-    spec = effective_spec(*spec_args(doc))
+    spec = [] if doc.get('malformed') else effective_spec(*spec_args(doc))
     for i, rid in enumerate(obs['ids']):
       for o in OPS:
         ordered = obs['cols']['F_all' if o in FIND_OPS else 'F_grp'][i]
@@ -661,6 +699,14 @@ def _has_dups(doc, rows, spec):
 def search(ctx):
   nviol = 0
   for doc, obs, rows in observed(ctx):
+    if doc.get('malformed'):
+      for i, rid in enumerate(obs['ids']):
+        for o in OPS:
+          got = cell_result(obs['cols']['F_' + o][i])
+          if got[0] == 'ok':
+            ctx.violation('unknown_column_accepted', '%s with order_by=%r sort_by=%r (no such column) returned %r' %
+                          (o, doc['order_by'], doc['sort_by'], got), {'doc': doc, 'record': rid, 'op': o})
+      continue
     dom = (not doc['robust']) and in_domain(doc, rows)
     for i, rid in enumerate(obs['ids']):
       for o in OPS:
@@ -690,6 +736,9 @@ def replay(ctx, w):
     return 'document cannot be built: %r' % (e,)
   if w['record'] not in obs['ids']:
     return None
+  if doc.get('malformed'):
+    got = cell_result(obs['cols']['F_' + w['op']][obs['ids'].index(w['record'])])
+    return 'unknown sort column accepted: %r' % (got,) if got[0] == 'ok' else None
   bad = oracle_cell(doc, obs, rows, obs['ids'].index(w['record']), w['op'])
   return bad[1] if bad else None
 
